@@ -319,6 +319,12 @@ class Evaluator:
                     out[a.asname or a.name] = a.name
         return out
 
+    def _module_function(self, name: str):
+        for st_ in self.repo.module(self.module).tree.body:
+            if isinstance(st_, ast.FunctionDef) and st_.name == name:
+                return st_
+        return None
+
     # ------------------------------------------------------------------
     # public entry points
     def run_function(self, fn: ast.FunctionDef, args: Dict[str, Term], state: Optional[State] = None,
@@ -898,6 +904,12 @@ class Evaluator:
             la, lb = _len_off(a), _len_off(b)
             if la is not None and is_const(b) and isinstance(b[1], int) and not isinstance(b[1], bool) \
                     and op in _CMP_FLIP:
+                if la[1] < 0 and _len_arg(a) is not None and _len_arg(a)[0] == "slice":
+                    k = -la[1]
+                    if (op, b[1]) in ((">", 0), (">=", 1), ("!=", 0)):
+                        return ("lencmp", la[0], ">", k), pol
+                    if (op, b[1]) in (("<=", 0), ("<", 1), ("==", 0)):
+                        return ("lencmp", la[0], ">", k), not pol
                 return self._len_atom(la[0], op, b[1] - la[1], pol, st)
             if lb is not None and is_const(a) and isinstance(a[1], int) and not isinstance(a[1], bool) \
                     and op in _CMP_FLIP:
@@ -924,7 +936,11 @@ class Evaluator:
             cname = c[1].split(".")[-1] if c[0] == "global" else show(c)
             return ("isinstance", t[2][0], cname), pol
         # truthiness of a value
-        if self._listlike(t, st):
+        if t[0] == "slice" and is_const(t[2]) and isinstance(t[2][1], int) and t[2][1] >= 0 and t[3] == NONE and t[4] == NONE:
+            if t[2][1] == 0:
+                return ("nonempty", t[1]), pol
+            return ("lencmp", t[1], ">", t[2][1]), pol       # xs[k:] is non-empty iff len(xs) > k
+        if self._listlike(t, st) or (t[0] == "comp" and t[1] in ("list", "set")) or t[0] in ("list", "tuple"):
             return ("nonempty", t), pol
         return ("truthy", t), pol
 
@@ -1028,6 +1044,10 @@ class Evaluator:
                     fn = ci.methods[f.attr]
                     is_static = any(norm(d) == "staticmethod" for d in fn.decorator_list)
                     return fn, base.id, None if is_static else None, "static"
+        if isinstance(f, ast.Name) and f.id not in st.env and f.id not in self.opaque_methods:
+            fn = self._module_function(f.id)
+            if fn is not None:
+                return fn, self.cls, None, "function"
         if isinstance(f, ast.Call) and norm(f.func) == "getattr" and len(f.args) >= 2:
             recv = self.eval(f.args[0], st)
             name = self.eval(f.args[1], st)
@@ -1672,6 +1692,9 @@ def _len_off(t: Term):
     """(x, k) if t is len(x) + k for a constant k (k may be 0)."""
     x = _len_arg(t)
     if x is not None:
+        # len(xs[k:]) == len(xs) - k  (for the comparisons made here: emptiness, or against positive constants)
+        if x[0] == "slice" and is_const(x[2]) and isinstance(x[2][1], int) and x[2][1] >= 0 and x[3] == NONE and x[4] == NONE:
+            return x[1], -x[2][1]
         return x, 0
     if t[0] == "binop" and t[1] in ("+", "-") and is_const(t[3]) and isinstance(t[3][1], int) \
             and not isinstance(t[3][1], bool):
